@@ -88,6 +88,8 @@ type Chain struct {
 	Store    *StoreProbe
 	Deps     *DepProbe
 	Keys     map[string]*storetypes.KVStoreKey
+	// LastExportPanic: text of a panic recovered while exporting this chain's genesis (set by the state tap).
+	LastExportPanic string
 	DB       dbm.DB
 	Height   int64
 	AppHash  []byte
